@@ -109,6 +109,7 @@ def run_unit(name, mod, only_props, tier):
         ob = new_ob(_slug(fname), " :: ".join(c["item"]), c.get("clause", "postcondition polynomials lie in the ideal of the hypotheses (see contracts.py)"), c.get("props"))
         if c.get("witness"):
             ob.witness = c["witness"]
+        ob.needs_witness = bool(c.get("needs_witness"))
         t0 = time.time()
         try:
             body, header = fn_body(read(c.get("file", mod.FILE)), c["item"], c.get("closure"))
@@ -124,11 +125,20 @@ def run_unit(name, mod, only_props, tier):
                 hyps = list(c["hyps"](loc)) + list(env.hyps) + (list(case.get("hyps", lambda l: [])(loc)) if case else [])
                 goals = (case.get("goals") if case and case.get("goals") else c["goals"])(env, out, loc2)
                 hyps = hyps + [h for h in env.hyps if not any(h is x for x in hyps)]
-                for what, p in getattr(env, "pre_obligations", []):
-                    goals.append((what, p))
+                if c.get("only") != "formula":
+                    for what, p in getattr(env, "pre_obligations", []):
+                        goals.append((what, p))
                 for gname, g in goals:
                     okk, rem = pv.in_ideal(g, hyps)
                     results.append(((case or {}).get("name", "") + gname, okk, g, hyps))
+                # boolean callee preconditions: the guards passed before the call must imply them (truth table
+                # over the atoms; atoms are uninterpreted, so a non-implication is confirmed only by the witness)
+                for what, path_at_call, f in (getattr(env, "pre_formulas", []) if c.get("only") != "ideal" else []):
+                    pth = path_at_call if path_at_call is not None else ("const", True)
+                    okk, cex = pv.formulas_equivalent(("and", pth, ("not", f)), ("const", False))
+                    results.append(((case or {}).get("name", "") + what, okk, None, []))
+                    if not okk:
+                        ob.detail += "%s: the guards passed before the call do not imply the callee's precondition %s (atoms: %s)\n" % (what, _fmt(f), cex)
                 # completeness goals: must vanish identically after substituting the honest values
                 for gname, g in getattr(env, "completeness", []):
                     results.append(((case or {}).get("name", "") + gname, sp.expand(g) == 0, g, []))
@@ -141,6 +151,8 @@ def run_unit(name, mod, only_props, tier):
                 # independent cross-check of the Groebner verdicts: exact evaluation at random rational points
                 # of the hypotheses' variety (does not go through sympy.groebner / reduced)
                 for gname, _, g, hyps in results:
+                    if g is None:
+                        continue
                     pt, val = pv.find_refutation(g, hyps, seed + 17, tries=12)
                     info["crosscheck_points"] = info.get("crosscheck_points", 0) + 12
                     if pt:
@@ -156,6 +168,10 @@ def run_unit(name, mod, only_props, tier):
                 msgs = []
                 refuted = False
                 for gname, _, g, hyps in bad:
+                    if g is None:
+                        refuted = True      # boolean precondition not implied (see detail); witness-gated by the unit
+                        msgs.append("clause %s: not implied by the guards" % gname)
+                        continue
                     order = auto_solve_order(hyps)
                     pt = None
                     if order is not None:
@@ -168,7 +184,7 @@ def run_unit(name, mod, only_props, tier):
                         ob.algebraic_witness = {"clause": gname, "point": pt, "goal_value": val}
                     else:
                         msgs.append("clause %s: remainder non-zero but no refuting point found" % gname)
-                ob.detail = "\n".join(msgs)
+                ob.detail = (ob.detail or "") + "\n".join(msgs)
                 ob.status = FAILED if refuted else UNDECIDED
         except (pv.Unsupported, rs.ScanError) as e:
             ob.status = UNDECIDED
@@ -184,6 +200,7 @@ def run_unit(name, mod, only_props, tier):
         ob = new_ob(_slug(fname), " :: ".join(c["item"]), c["clause"], c.get("props"))
         if c.get("witness"):
             ob.witness = c["witness"]
+        ob.needs_witness = bool(c.get("needs_witness"))
         t0 = time.time()
         try:
             body, header = fn_body(read(c.get("file", mod.FILE)), c["item"])
